@@ -25,6 +25,7 @@ def c01(ctx: Ctx):
         "TLC; spec/SchemaSem.tla as the transcription of draft-4/OpenAPI 3.0 keyword semantics (null per the library's documented NullRule)",
         "harness realiser (abstract schema -> OpenAPI JSON -> real loader) guarded by the rs = s round trip judged by TLC",
         "numbers are quarters, strings over a small alphabet incl. one astral rune, five fixed patterns; format/discriminator are outside this oracle (C12)",
+        "history clause: spec/PatternCache.tla models the process-wide compiled-pattern cache and caller-supplied regex engines; TLC checks that the pinned caching policy makes every verdict a function of the call alone (and that the two other plausible policies do not), and every history of <= MaxSteps validations is replayed in one process against the real cache and judged by Trace_C01H",
     ]
     if ctx.replay:
         v = ctx.replay["violation"]
@@ -56,3 +57,26 @@ def c01(ctx: Ctx):
                 "spec/SchemaUniverse.tla in 3 forms (VisitJSON float64, VisitJSON json.Number, IsMatching); evaluations counts "
                 "(schema, value, form) judgements; non-trivial = distinct schemas that accept some and reject some values") % 44
     ctx.validate("Trace_C01", "Trace_C01.cfg", logp, chunk_lines=1200)
+    if not ctx.replay:
+        history_clause(ctx)
+
+
+def history_clause(ctx):
+    """C01 over histories: the compiled-pattern cache and caller-supplied regex engines (spec/PatternCache.tla)."""
+    ctx.tlc("Gen_C01H", "Gen_C01H_%s.cfg" % ctx.tier, label="D cache policy 'never' => HistoryIndependent; F histories")
+    ctx.tlc("Gen_C01H", "MC_C01_cache_on_success.cfg", expect_violation=True, label="D policy 'on_success' breaks HistoryIndependent")
+    ctx.tlc("Gen_C01H", "MC_C01_cache_always.cfg", expect_violation=True, label="D policy 'always' breaks HistoryIndependent")
+    cases = os.path.join(ctx.scratch, "cases_hist.ndjson")
+    n = ctx.unquote(ctx.spec("cases_hist.ndjson"), cases)
+    log("[gen] %d histories" % n)
+    logp = os.path.join(ctx.scratch, "log_hist.ndjson")
+    ctx.drive(cases, logp, prop="C01H", shards=4)
+    k = 0
+    for l in open(logp):
+        o = json.loads(l)
+        ctx.evaluations += len(o.get("obs", []))
+        k += 1
+        if k in (1, n // 2):
+            ctx.samples.append(dict(history=o["c"]["steps"], obs=o["obs"]))
+    ctx.extra["histories_replayed_in_one_process"] = n
+    ctx.validate("Trace_C01H", "Trace_C01H.cfg", logp, chunk_lines=4000)
